@@ -44,7 +44,6 @@ def ratToFloat (r : Rat) (sc : Nat) : Float := Float.ofInt r.num / Float.ofNat r
 
 def outcomeStr : Outcome → String
   | .ok n b => s!"{n} {bs b}"
-  | .panic => "panic"
 
 def bitsStr (l : List Bool) : String := String.join (l.map bs)
 
@@ -158,10 +157,8 @@ def handleAll : List String → Option String
     let p : IPt := ⟨px, py⟩
     let w := windingsPath p subs
     let c := crossingsPath p subs
-    let t := match w with
-      | .panic => "panic"
-      | .ok _ _ => " ".intercalate ([Rule.nonZero, Rule.evenOdd, Rule.positive, Rule.negative].map fun r =>
-          match containsPath r p subs with | some b => bs b | none => "panic")
+    let t := " ".intercalate ([Rule.nonZero, Rule.evenOdd, Rule.positive, Rule.negative].map fun r =>
+      bs (containsPath r p subs))
     pure s!"W {outcomeStr w} C {c.1} {bs c.2} T {t}"
   | "CCWM" :: c :: n :: ts => do
     let n ← n.toNat?
@@ -184,7 +181,9 @@ def handleAll : List String → Option String
       | some b =>
         if b == b01 rep then pure "ok"
         else
-          let cls := if !(b01 c) && (corner false vs).k == 0 then "open-start-vertex-extreme" else "ccw-sign"
+          let cls := if !(b01 c) && (corner false vs).k == 0 then
+              (if vs.length > 1 && vs.getLast? == vs.head? then "open-returns-to-start" else "open-start-vertex-extreme")
+            else "ccw-sign"
           pure s!"FAIL {cls} area2={area2 ct} reported={rep}"
     | _ => none
   | "FILLM" :: rule :: k :: ts => do
@@ -195,7 +194,6 @@ def handleAll : List String → Option String
     | [rep] =>
       match fillingFlat rule subs with
       | .degenerate => pure "skip degenerate"
-      | .panic => pure (if rep == "panic" then "ok panic" else s!"MISMATCH model=panic real={rep}")
       | .ok l => pure (if bitsStr l == rep then "ok" else s!"MISMATCH model={bitsStr l} real={rep}")
     | _ => none
   | "FILLSPEC" :: rule :: k :: ts => do
@@ -210,7 +208,8 @@ def handleAll : List String → Option String
         let exp := bitsStr (fillSpecAll rule cs)
         if exp == rep then pure "ok"
         else
-          let cls := if subs.any (fun s => !s.1 && (corner false s.2).k == 0) then "open-start-vertex-extreme"
+          let cls := if subs.any (fun s => !s.1 && (corner false s.2).k == 0 && s.2.length > 1 && s.2.getLast? == s.2.head?) then "open-returns-to-start"
+            else if subs.any (fun s => !s.1 && (corner false s.2).k == 0) then "open-start-vertex-extreme"
             else if subs.any (fun s => !s.1) then "open" else "filling"
           pure s!"FAIL {cls} expected={exp} reported={rep}"
     | _ => none
